@@ -1166,6 +1166,16 @@ def o_field_corr(ctx, fcase):
     return _field_compare(fcase, impl, ctx.driver('C06', [_field_request(fcase, reset)])[0])
 
 
+def near(rng, x):
+    """a value right next to x: the neighbouring double, or 1e-9 / 1e-6 relative away — different from x for an exact cache
+    key, 'equal' for any tolerance-based comparison (at MJD-like magnitudes 1e-6 relative is several hours)"""
+    return float(rng.choice([np.nextafter(x, np.inf), np.nextafter(x, -np.inf), x * (1.0 + 1e-9), x * (1.0 + 1e-6),
+                             x * (1.0 - 1e-6)]))
+
+
+_FIELD_GAMMAS = [2.0, 2.5, 3.25, 58000.0, 58000.25, 55001.5]      # small and MJD-like values of a fit parameter
+
+
 def gen_field_case(ctx, maxlen):
     rng = ctx.rng
     ops = []
@@ -1178,10 +1188,16 @@ def gen_field_case(ctx, maxlen):
         elif r < 0.55:
             ops.append(['S', rng.randrange(2)])
         else:
-            ops.append(['C', [rng.choice([2.0, 2.5, 3.25]), rng.choice([1.0, 4.0])]])
-    # the final key changes none / one / both of the two parameters of the last computed key
+            prev = next((o[1] for o in reversed(ops) if o[0] == 'C'), None)
+            if prev is not None and rng.random() < 0.3:
+                ops.append(['C', [near(rng, prev[0]), prev[1]] if rng.random() < 0.7 else [prev[0], near(rng, prev[1])]])
+            else:
+                ops.append(['C', [rng.choice(_FIELD_GAMMAS), rng.choice([1.0, 4.0])]])
+    # the final key changes none / one / both of the two parameters of the last computed key — or moves one of them to a
+    # value right next to it
     last = next((o[1] for o in reversed(ops) if o[0] == 'C'), [2.0, 1.0])
-    final = [rng.choice([last[0], last[0], 2.5, 3.25]), rng.choice([last[1], last[1], 4.0, 1.0])]
+    final = [rng.choice([last[0], last[0], 2.5, 58000.25, near(rng, last[0]), near(rng, last[0])]),
+             rng.choice([last[1], last[1], 4.0, 1.0, near(rng, last[1])])]
     return dict(d0=rng.randrange(3), s0=rng.randrange(2), ops=ops, final=final)
 
 
@@ -1403,6 +1419,11 @@ def gen_case(ctx, spec, maxlen):
             v = bad_point(spec)
             mixed = K > 1 and (spec.get('split') or spec.get('graph') == 'i3') and rng.random() < 0.5
             return [pts['p']] * (K - 1) + [v] if mixed else [v] * K
+        prev = next((o[2] for o in reversed(ops) if o[0] == 'E'), None)
+        if prev is not None and rng.random() < 0.1:
+            ctx.count('evaluate right next to the previous point')
+            return [near(rng, prev[0])] * K if not (K > 1 and (spec.get('split') or spec.get('graph') == 'i3')) \
+                else [near(rng, x) if j == 0 else x for j, x in enumerate(prev)]
         v = pts[rng.choice(names)]
         if K == 2 and spec.get('split') and rng.random() < 0.6:     # per-source values: all equal (40 %), else different
             return [pts[rng.choice(names)] for _ in range(K)]
@@ -1587,7 +1608,12 @@ def run(ctx):
     fcases = [dict(d0=0, s0=0, ops=[['C', 2.0], ['S', 1]], final=2.0),
               # the key is the tuple of all parameter values: one component changes, then the other, then both, then none
               dict(d0=0, s0=0, ops=[['C', [2.0, 1.0]], ['C', [2.0, 4.0]], ['C', [2.5, 4.0]], ['C', [3.25, 1.0]]], final=[3.25, 1.0]),
-              dict(d0=1, s0=1, ops=[['C', [2.5, 4.0]], ['R'], ['C', [2.5, 1.0]]], final=[2.0, 1.0])]
+              dict(d0=1, s0=1, ops=[['C', [2.5, 4.0]], ['R'], ['C', [2.5, 1.0]]], final=[2.0, 1.0]),
+              # keys right next to each other, at small and at MJD-like magnitude: every one is a different key
+              dict(d0=0, s0=0, ops=[['C', [58000.0, 1.0]], ['C', [58000.0 * (1 + 1e-6), 1.0]],
+                                    ['C', [float(np.nextafter(58000.0 * (1 + 1e-6), np.inf)), 1.0]]], final=[58000.0, 1.0]),
+              dict(d0=2, s0=1, ops=[['C', [2.0, 1.0]], ['C', [2.0 * (1 + 1e-9), 1.0]], ['C', [2.0, float(np.nextafter(1.0, 2.0))]]],
+                   final=[float(np.nextafter(2.0, 3.0)), 1.0])]
     fcases += [gen_field_case(ctx, maxlen + 1) for _ in range(ctx.n(60, 1500))]
     timpl = [run_top(c['spec'], c['d0'], c['s0'], lops, cascade=ca) for c, lops, _, ca in tcases]
     cimpl = [run_comp(c['spec'], c['d0'], c['s0'], lops) for c, lops, _ in ccases]
